@@ -363,7 +363,7 @@ def run_shard(spec, acc):
         check_case(spec["witness"]["seed"], acc, negpair=bool(spec["witness"].get("negpair")))
         return
     tier, k, n = spec["tier"], spec["shard"], spec["nshards"]
-    total = 2400 if tier == "quick" else 80000
+    total = 4800 if tier == "quick" else 80000
     rng = random.Random("C06/%s/%s" % (spec["seed"], k))
     for j in range(total // n):
         seed = rng.randrange(1 << 48)
